@@ -204,11 +204,12 @@ func witnessCase(idx int) *caseProg {
 
 // ---- running a case --------------------------------------------------------------------------------
 
-// runCase returns false when the batch must stop (goroutines of a stuck program stay behind).
-func runCase(c *sup.Child, idx int, kind string, p *caseProg) bool {
+// runCase returns ok=false when the batch must stop (goroutines of a stuck program stay behind).
+func runCase(c *sup.Child, idx int, kind string, p *caseProg) (ok, violated bool) {
 	p.render()
-	ok := true
+	ok = true
 	c.Case(idx, p.desc(kind), func(r *sup.CaseResult) {
+		defer func() { violated = len(r.Violations) > 0 }()
 		x := &execRun{probes: p.B.probes}
 		hk := &hookCtl{gate: p.Gate, delayUS: p.HookUS, yields: p.HookY}
 		curHook.Store(hk)
@@ -277,12 +278,17 @@ func runCase(c *sup.Child, idx int, kind string, p *caseProg) bool {
 			r.Sample = map[string]any{"kind": kind, "driver": p.Driver, "program": p.texts, "probe_log": l.trace(), "surroundings": out.srs}
 		}
 	})
-	return ok
+	return ok, violated
 }
 
 func run(c *sup.Child, b sup.Batch) {
 	installHook()
-	viol := 0
+	// A replay restricts the batch to one case. Schedules are reproducible only statistically,
+	// so the recorded case is repeated until it shows a violation again (at most 200 times).
+	repeat := 1
+	if !c.Want(-1) {
+		repeat = 200
+	}
 	for idx := b.From; idx < b.To; idx++ {
 		if !c.Want(idx) {
 			continue
@@ -302,10 +308,15 @@ func run(c *sup.Child, b sup.Batch) {
 		default:
 			return
 		}
-		if !runCase(c, idx, b.Kind, p) {
-			return
+		for k := 0; k < repeat; k++ {
+			ok, violated := runCase(c, idx, b.Kind, p)
+			if !ok {
+				return
+			}
+			if violated {
+				break
+			}
 		}
-		_ = viol
 	}
 }
 
